@@ -75,6 +75,7 @@ type World struct {
 	Round func()
 
 	// FaultPlan, if set, decides the fate of every durable operation (called under Mu).
+	AddrIsID  bool // set before AddServer: server addresses equal their ids
 	FaultPlan func(op *DiskOp) Decision
 	// ReadFault, if set, decides whether a LogStore.GetLog call fails (called
 	// under Mu, only for call sites where raft handles a read error).
@@ -146,7 +147,11 @@ func (w *World) Violations() []Violation {
 }
 
 func (w *World) AddServer(id string, flavour Flavour) *Server {
-	s := &Server{ID: raft.ServerID(id), Addr: raft.ServerAddress("addr-" + id), Grants: map[uint64]string{}}
+	addr := "addr-" + id
+	if w.AddrIsID {
+		addr = id // protocol versions below 3 require LocalID == network address
+	}
+	s := &Server{ID: raft.ServerID(id), Addr: raft.ServerAddress(addr), Grants: map[uint64]string{}}
 	s.Disk = NewDisk(flavour)
 	w.Mu.Lock()
 	w.Servers[id] = s
